@@ -35,11 +35,17 @@ def scratch_keyring():
 
 
 CHALLENGE = binascii.hexlify(b'ctx 41 ' + binascii.hexlify(b'server-chal'))
+# a well-formed challenge naming a cookie id / a context the keyring lacks
+CHALLENGE_STALE = binascii.hexlify(b'ctx 99 '
+                                   + binascii.hexlify(b'server-chal'))
+CHALLENGE_NOCTX = binascii.hexlify(b'nofile 41 '
+                                   + binascii.hexlify(b'server-chal'))
 
 LINES = [
     b'OK ' + fakes.GUID, b'OK', b'OK zz', b'REJECTED EXTERNAL ANONYMOUS',
     b'REJECTED', b'ERROR', b'ERROR "text"', b'DATA', b'DATA ' + CHALLENGE,
     b'DATA zz', b'AGREE_UNIX_FD', b'BEGIN', b'FOO', b'',
+    b'DATA ' + CHALLENGE_STALE, b'DATA ' + CHALLENGE_NOCTX,
 ]
 OUTSIDE = {b'BEGIN', b'FOO', b'', b'OK', b'OK zz'}
 
@@ -195,6 +201,14 @@ def digest_step(obs, server_line, written, closed_now, auth_calls, tag):
         viol.append(('%s/S1/authenticated-callback/%s' % (PROP, tag),
                      'connectionAuthenticated ran %d times, BEGIN sent: %s'
                      % (auth_calls, obs.begin)))
+    if server_line is not None and any(
+            k == 'line' and v.startswith(b'AUTH') for k, v in items) and \
+            server_line.split(b' ')[0] not in (b'REJECTED', b'ERROR'):
+        viol.append(('%s/S6/auth-out-of-turn/%s' % (PROP, tag),
+                     'the client started a new AUTH in reply to %r; a '
+                     'mechanism in progress is abandoned with CANCEL or '
+                     'ERROR and the next AUTH follows the server\'s '
+                     'REJECTED' % (server_line,)))
     if obs.auths != PREFERENCE[:len(obs.auths)]:
         viol.append(('%s/S2/auth-order/%s' % (PROP, tag),
                      'AUTH lines so far %r are not a prefix of the preference '
@@ -265,6 +279,10 @@ class ClientScenario(explore.Scenario):
                          (line.split(b' ')[0] or b'empty').decode())
         if line in (b'OK zz', b'DATA zz'):
             tag += '-badhex'
+        elif line.endswith(CHALLENGE_STALE):
+            tag += '-stale-cookie-id'
+        elif line.endswith(CHALLENGE_NOCTX):
+            tag += '-unknown-context'
         elif line == b'OK':
             tag += '-noguid'
         try:
@@ -294,10 +312,12 @@ class ClientScenario(explore.Scenario):
 class RefServerPeer:
     """A conforming server accepting the mechanisms in `accept`."""
 
-    def __init__(self, accept, fd_answer, external_data_first):
+    def __init__(self, accept, fd_answer, external_data_first,
+                 stale_cookie=False):
         self.accept = accept
         self.fd_answer = fd_answer
         self.ext_data = external_data_first
+        self.stale_cookie = stale_cookie
         self.state = 'auth'
         self.mech = None
         self.done = False
@@ -329,6 +349,8 @@ class RefServerPeer:
                 if len(parts) < 2:
                     return self._rejected()
                 self.state = 'data'
+                if self.stale_cookie:
+                    return b'DATA ' + CHALLENGE_STALE
                 return b'DATA ' + CHALLENGE
         if self.state == 'data':
             if cmd in (b'CANCEL', b'ERROR'):
@@ -361,11 +383,11 @@ class RefServerPeer:
         return b'ERROR'
 
 
-def run_handshake(accept, fd_answer, ext_data, unix, cut=None):
+def run_handshake(accept, fd_answer, ext_data, unix, cut=None, stale=False):
     """Full conversation; cut = (response index, position) splits that server
     line into two reads.  Returns (completed, transcript, violations)."""
     p, t = make_client(unix)
-    srv = RefServerPeer(set(accept), fd_answer, ext_data)
+    srv = RefServerPeer(set(accept), fd_answer, ext_data, stale)
     obs = Obs(unix)
     viol = digest_step(obs, None, t.take(), False, 0, 'live')
     transcript = []
@@ -465,6 +487,32 @@ def _task_live(task):
                                     '%r' % (cut, t_, tr), rep, size=len(t_))
                         res.count('states')
                         res.outcome(tuple(x[1][:12] for x in tr))
+    # a server whose cookie challenge names an id the client's keyring does
+    # not hold: the client must abandon the mechanism properly and complete
+    # with the next one the server accepts
+    for accept in ((b'DBUS_COOKIE_SHA1', b'ANONYMOUS'),
+                   (b'EXTERNAL', b'DBUS_COOKIE_SHA1', b'ANONYMOUS')[1:],):
+        for unix in (False, True):
+            for fd_answer in (b'AGREE_UNIX_FD', b'ERROR'):
+                done, tr, viol, n = run_handshake(accept, fd_answer, False,
+                                                  unix, stale=True)
+                res.count('transitions')
+                res.count('evaluations')
+                res.count('traces')
+                res.count('nontrivial')
+                res.count('states')
+                rep = {'part': 'live-stale', 'unix': unix,
+                       'fd_answer': fd_answer.decode()}
+                if not done:
+                    res.violation(
+                        '%s/live/incomplete/stale-cookie-id/%s'
+                        % (PROP, 'unix' if unix else 'tcp'),
+                        'server accepts ANONYMOUS after a cookie challenge '
+                        'for an id the keyring lacks; the handshake did not '
+                        'complete: %r' % (tr[-6:],), rep, size=len(tr))
+                for sig, what in viol:
+                    res.violation(sig + '/stale-cookie-id', what, rep,
+                                  size=len(tr))
     res.sample({'reference_server_accepts': ['DBUS_COOKIE_SHA1'],
                 'conversation': [(a, b.decode('latin-1')[:50])
                                  for a, b in run_handshake(
@@ -481,7 +529,8 @@ def run(ctx):
         'unknown, empty) x {UNIX, non-UNIX transport}; after every line the '
         'client\'s writes are checked against S1 (BEGIN / binary only after '
         'a valid OK and an answered descriptor negotiation), S2 (AUTH lines '
-        'a prefix of the preference order), S3 (next mechanism or close), S4 '
+        'a prefix of the preference order), S3 (next mechanism or close), S6 '
+        '(a new AUTH only in reply to REJECTED/ERROR), S4 '
         '(close on lines outside the protocol), S5 (no stall, nothing after '
         'close). part 2: full handshakes against a conforming reference '
         'server for each of the 7 non-empty mechanism subsets x 3 answers to '
@@ -505,6 +554,15 @@ def run(ctx):
 def replay(data):
     if 'scenario' in data:
         return explore.replay_violation(data)
+    if data.get('part') == 'live-stale':
+        done, tr, viol, _ = run_handshake(
+            (b'DBUS_COOKIE_SHA1', b'ANONYMOUS'), data['fd_answer'].encode(),
+            False, data['unix'], stale=True)
+        out = list(viol)
+        if not done:
+            out.append(('%s/live/incomplete/stale-cookie-id' % PROP,
+                        repr(tr[-6:])))
+        return out
     cfg = data['cfg']
     done, tr, viol, _ = run_handshake(
         tuple(a.encode() for a in cfg['accept']), cfg['fd_answer'].encode(),
